@@ -134,9 +134,9 @@ PROPS["C17"] = dict(
 PROPS["C10"] = dict(
     model="ConcDisj.v, ConcConj.v",
     harness=[dict(name="main", n_quick=500, n_thorough=1200, shards_quick=1, shards_thorough=6, timeout=1500),
-             dict(name="race", race=True, n_quick=0, n_thorough=200, shards_thorough=2, coq=False, timeout=1500)],
+             dict(name="race", race=True, n_quick=60, n_thorough=200, shards_quick=1, shards_thorough=2, coq=False, timeout=1500)],
     trusted=_PROG_TRUSTED + ["the scheduler's choices (arrival order of worker messages, select picks) are explicit inputs of the model; real schedules are sampled with injected delays and GOMAXPROCS",
-                             "data-race freedom is a property of the Go memory model that the model cannot exhibit: the thorough tier runs the harness under the race detector as supporting validation"],
+                             "data-race freedom is a property of the Go memory model that the model cannot exhibit: both tiers run (part of) the harness under the race detector as supporting validation"],
     assumptions=_PROG_ASSUME + ["argument goals are purely relational (needed for ConjPlus's early nil)"],
     explanation="order-independence theorems with the arrival permutation / select picks as universally quantified inputs; tie: cell traces of the concurrent combinators against the sequential model under injected delays",
 )
@@ -182,10 +182,10 @@ PROPS["C15"] = dict(
 PROPS["C07"] = dict(
     model="MemModel.v (memory-level: heap objects, slices as (array,len,cap), maps, stream cells)",
     harness=[dict(name="main", n_quick=600, n_thorough=1500, shards_quick=1, shards_thorough=8, timeout=1500),
-             dict(name="race", race=True, n_quick=0, n_thorough=300, shards_thorough=2, coq=False, timeout=1500)],
+             dict(name="race", race=True, n_quick=80, n_thorough=300, shards_quick=1, shards_thorough=2, coq=False, timeout=1500)],
     mismatch_is_input=True,
     trusted=_PROG_TRUSTED + _GOMINI_TRUSTED + ["that the Go functions contain no other writes than the ones transcribed in MemModel.v is what the harness checks: every value published earlier (input state, earlier answers, earlier versions of a history) is re-read after later operations and compared with what it showed when it was published",
-                                                "gomini goal trees are evaluated concurrently; the thorough tier repeats the harness under the race detector (supporting validation, not a theorem)"],
+                                                "gomini goal trees are evaluated concurrently; both tiers repeat (part of) the harness under the race detector (supporting validation, not a theorem)"],
     assumptions=["Substitutions.String() (which sorts its receiver in place) is not a goal; the harness never calls it",
                  "bindings are observed as the sequence of pairs (micro) / the map (gomini), not as memory addresses"],
     explanation="invariant proofs over a memory-level model (every write of an operation targets an object allocated by that operation; earlier views unchanged; siblings independent; memoised stream cells; refutations for append-based exts and in-place Set); tie: histories of the real exts/Set/NewVar against the model's views, snapshot oracles on goal programs in micro, gomini and concurrent",
@@ -194,7 +194,7 @@ PROPS["C07"] = dict(
 PROPS["C06"] = dict(
     model="GominiSeq.v (sequential reference), GominiRuns.v (all schedules), ChanKernel.v (channel / WaitGroup protocol)",
     harness=[dict(name="main", n_quick=80, n_thorough=250, shards_quick=2, shards_thorough=6, timeout=2400, coq_timeout=1500),
-             dict(name="race", race=True, n_quick=0, n_thorough=60, shards_thorough=2, coq=False, timeout=2400)],
+             dict(name="race", race=True, n_quick=12, n_thorough=60, shards_quick=1, shards_thorough=2, coq=False, timeout=2400)],
     trusted=_PROG_TRUSTED + _GOMINI_TRUSTED + ["a schedule is a derivation of the inductive relation Runs (one rule per combinator of operators.go / ifthenelse.go): 'for every schedule' is a universal quantifier over derivations; the real Go scheduler, channel implementation and memory model are runtime and are sampled by sweeping GOMAXPROCS, injected yields / sleeps at goal boundaries, placeholder policy and routine limit",
                                                 "goal programs are built on the Go side over *ast.SExpr terms with the real EqualO / ConjO / DisjO / ExistO / IfThenElseO; relation calls are eta-expanded Go closures as the repository's own gomini relations are"],
     assumptions=["finite searches: the sequential search tree is finite (gseq = Some l); infinite searches are covered by the partial-run soundness theorem and the first-n-answers oracle",
